@@ -1487,7 +1487,7 @@ send_step_tcp_harness!(t06_send_step_tcp_0_509_reissue_failed, 0, 509, false, 2)
 complete_probe_awaited_harness!(t01_complete_probe_awaited_1_255_254, 1, 255, 254, false);
 complete_probe_awaited_harness!(t01_complete_probe_awaited_64511_3_1, 64511, 3, 1, true);
 complete_probe_ignored_harness!(t03_duplicate_ignored_0_2_0, 0, 2, 0, 0, true);
-complete_probe_ignored_harness!(t03_never_sent_ignored_65022_100_511, 65022, 100, 511, 1, false);
+complete_probe_ignored_harness!(t03_never_sent_ignored_65022_100_510, 65022, 100, 510, 1, false);
 complete_probe_ignored_harness!(t03_skipped_ignored_1_400_398, 1, 400, 398, 2, true);
 complete_probe_ignored_harness!(t03_failed_ignored_64511_255_100, 64511, 255, 100, 3, false);
 recv_decision_harness!(t03_recv_decision_te_icmp_v6, 0, 0, true);
